@@ -29,8 +29,8 @@ impl Check for C03 {
 
     fn runs(&self, tier: Tier) -> u64 {
         match tier {
-            Tier::Quick => 200_000,
-            Tier::Thorough => 10_000_000,
+            Tier::Quick => 300_000,
+            Tier::Thorough => 15_000_000,
         }
     }
 
